@@ -103,6 +103,35 @@ Definition is_pure_cmdsub (w : tree) : bool :=
   | _ => false
   end.
 
+(* allowlists.sets_execution_var(word): the word is NAME=value or NAME+=value, NAME decides what runs - except a PATH
+   assigned (not appended) a list of system directories only *)
+Fixpoint take_ident (s : str) : str := match s with c :: r => if ident_char c then c :: take_ident r else [] | [] => [] end.
+Definition sets_execution_var (w : str) : bool :=
+  match w with
+  | c :: r =>
+      if negb (ident_start c) then false else
+      let name := c :: take_ident r in
+      let rest := skipn (length name) w in
+      match rest with
+      | 61 :: v => mem_str name EXECUTION_ENV_VARS &&
+                   negb (str_eqb name $"PATH" && forallb (fun d => mem_str d SYSTEM_PATH_DIRS) (split_ch 58 v))
+      | 43 :: 61 :: _ => mem_str name EXECUTION_ENV_VARS
+      | _ => false
+      end
+  | [] => false
+  end.
+(* the assignment prefix of a command: an "ask" for every word that sets a variable deciding what runs *)
+Fixpoint env_asks (nassign pos : nat) (words : list str) : list verdict :=
+  match words with
+  | [] => []
+  | w :: rest => (if Nat.ltb pos nassign && sets_execution_var w then [Ask] else []) ++ env_asks nassign (S pos) rest
+  end.
+
+(* _names_variable(base, words, position, base_idx): bash evaluates this argument of a builtin as a variable name *)
+Definition names_variable (base : str) (words : list str) (position nassign : nat) : bool :=
+  Nat.ltb nassign position &&
+  (mem_str base NAME_EVAL_ALL || (str_eqb base NAME_EVAL_CMD && str_eqb (nth (position - 1) words []) NAME_EVAL_FLAG)).
+
 (* _extract_cd_target(node) *)
 Definition extract_cd_target (t : tree) : option str :=
   if negb (is_kind "command" t) then None else
@@ -114,12 +143,24 @@ Definition extract_cd_target (t : tree) : option str :=
   | _ => None
   end.
 
+(* `command` / `builtin` prefixes, each with its options (words starting with "-"), are looked through *)
+Fixpoint skip_dashes (ws : list str) : list str :=
+  match ws with w :: r => if prefixb [45] w then skip_dashes r else ws | [] => [] end.
+Fixpoint skip_chdir_wrappers (fuel : nat) (ws : list str) : list str :=
+  match fuel with
+  | O => ws
+  | S f => match ws with
+           | w :: r => if mem_str w CHDIR_WRAPPERS then skip_chdir_wrappers f (skip_dashes r) else ws
+           | [] => []
+           end
+  end.
+
 (* _changes_directory(node): a cd/pushd/popd that runs in the current shell, anywhere inside *)
 Fixpoint changes_directory (t : tree) : bool :=
   match t with
   | T k _ _ ks =>
       if str_eqb k $"command" then
-        match skip_assignments (map word_value (map snd (filter (fun p => str_eqb (fst p) $"words") ks))) with
+        match skip_chdir_wrappers (length ks) (skip_assignments (map word_value (map snd (filter (fun p => str_eqb (fst p) $"words") ks)))) with
         | b :: _ => mem_str b CHDIR_COMMANDS
         | [] => false
         end
@@ -211,25 +252,74 @@ Section Walker.
 
   Definition unknown_ctx (c : ctx) : ctx := (UNKNOWN_CWD, snd c).
 
-  (* the directory the next element of a sequence is analysed in *)
-  Definition next_ctx (c : ctx) (t : tree) : ctx :=
-    if snd c then c else
+  (* _analyze_sequence: the state carried from one element to the next is the directory and whether that
+     directory rests on the assumption that an earlier `cd` succeeded.  [op] is the list operator written
+     after the element (";" for a newline or the end).  A `cd <literal>` is followed only through "&&"; an
+     element followed by "&" runs in a subshell and moves nothing; leaving an "&&" chain that started with
+     a followed cd makes the directory unknown (the cd may have failed). *)
+  Definition seq_state := (ctx * (bool * str))%type.        (* directory, assumed, operator before this element *)
+  Definition op_and : str := [38; 38].
+  Definition op_or : str := [124; 124].
+  Definition op_bg : str := [38].
+  Definition op_semi : str := [59].
+  Definition init_state (c : ctx) : seq_state := (c, (false, op_semi)).
+  Definition st_assumed (st : seq_state) : bool := fst (snd st).
+  Definition st_prev (st : seq_state) : str := snd (snd st).
+
+  Definition next_state (st : seq_state) (t : tree) (op : str) : seq_state :=
+    let c := fst st in
+    if snd c then st else
+    (* what the move decides: directory and assumption *)
+    let moved : ctx * bool :=
+      if str_eqb op op_bg then (c, st_assumed st) else
       match extract_cd_target t with
-      | Some tgt => if nonempty tgt then (cdres (fst c) tgt, snd c)
-                    else if changes_directory t then unknown_ctx c else c
-      | None => if changes_directory t then unknown_ctx c else c
-      end.
+      | Some tgt =>
+          if nonempty tgt && str_eqb op op_and && negb (str_eqb (st_prev st) op_or) then ((cdres (fst c) tgt, snd c), true)
+          else if nonempty tgt || changes_directory t then (unknown_ctx c, st_assumed st) else (c, st_assumed st)
+      | None => if changes_directory t then (unknown_ctx c, st_assumed st) else (c, st_assumed st)
+      end in
+    (* leaving an "&&" chain that rests on a followed cd *)
+    if snd moved && negb (str_eqb op op_and) then (unknown_ctx (fst moved), (false, op)) else (fst moved, (snd moved, op)).
+
+  (* the context of the next element when the operator is ";" (top-level nodes on separate lines) *)
+  Definition next_ctx (c : ctx) (t : tree) : ctx := fst (next_state (init_state c) t op_semi).
 
   (* the directory a loop body / the branches of an if run in *)
   Definition body_ctx (c : ctx) (moves : bool) : ctx := if negb (snd c) && moves then unknown_ctx c else c.
 
-  (* _analyze_sequence over already evaluated nodes *)
-  Fixpoint sequence (c : ctx) (l : list (tree * res)) : list verdict :=
+  (* _analyze_sequence over already evaluated nodes, each with the operator after it *)
+  Fixpoint sequence (st : seq_state) (l : list (tree * res * str)) : list verdict :=
+    match l with
+    | [] => []
+    | (t, r, op) :: rest =>
+        r_node r (fst st) ::
+        sequence (next_state st t op) rest
+    end.
+
+  (* the parts of a list node paired with the operator written after each (operator kids carry attribute "op") *)
+  Fixpoint ops_after (l : list (tree * res)) (cur : str) : str :=      (* the last of the operators that follow *)
+    match l with
+    | (o, _) :: rest => if is_kind "operator" o then ops_after rest (attr_d "op" o) else cur
+    | [] => cur
+    end.
+  Fixpoint with_ops (l : list (tree * res)) : list (tree * res * str) :=
     match l with
     | [] => []
     | (t, r) :: rest =>
-        r_node r c ::
-        sequence (next_ctx c t) rest
+        if is_kind "operator" t then with_ops rest
+        else (t, r, ops_after rest op_semi) :: with_ops rest
+    end.
+  Definition semis (l : list (tree * res)) : list (tree * res * str) := map (fun p => (fst p, snd p, op_semi)) l.
+
+  (* words without expansions whose text bash may evaluate later: the values of the assignment prefix (arithmetic reads
+     a variable's value recursively) and the variable-name arguments of builtins *)
+  Fixpoint name_scans (c : ctx) (base : str) (words : list str) (nassign pos : nat) (l : list tree) : list verdict :=
+    match l with
+    | [] => []
+    | t :: rest =>
+        (if negb (nonempty (children "parts" t)) && (Nat.ltb pos nassign || names_variable base words pos nassign)
+         then rawscan c (attr_d "value" t) else []) ++
+        name_scans c base words nassign (S pos) rest
     end.
 
   Definition lbl (k : string) (kr : list (str * tree * res)) : list (tree * res) :=
@@ -250,6 +340,21 @@ Section Walker.
     flat_map (fun p => r_redir (snd p) c) (lbl "redirects" kr).
   Definition wparts_of (k : string) (kr : list (str * tree * res)) (c : ctx) : list verdict :=
     flat_map (fun p => r_wp (snd p) false c) (lbl k kr).
+
+  (* case items run in order; after an item that falls through (terminator ";&" or ";;&") and whose body changes
+     directory, the later items are judged in the unknown directory *)
+  Definition item_moves (t : tree) : bool :=
+    match assoc_str $"terminator" (match t with T _ ss _ _ => ss end) with
+    | Some term => negb (str_eqb term $";;")
+    | None => false
+    end &&
+    match child "body" t with Some b => changes_directory b | None => false end.
+  Definition item_ctx (c : ctx) (t : tree) : ctx := if negb (snd c) && item_moves t then unknown_ctx c else c.
+  Fixpoint case_items (c : ctx) (l : list (tree * res)) : list verdict :=
+    match l with
+    | [] => []
+    | (t, r) :: rest => r_pat r c ++ case_items (item_ctx c t) rest
+    end.
 
   Definition known_kinds : list str :=
     [$"command"; $"pipeline"; $"list"; $"if"; $"while"; $"until"; $"for"; $"for-arith"; $"select";
@@ -293,7 +398,7 @@ Section Walker.
         end
       else
         let tgt := one "target" kr in
-        let subs := match tgt with Some (_, r) => r_wp r false c | None => [] end in
+        let subs := match tgt with Some (_, r) => r_wp r (str_eqb (sattr "op") HERESTRING_OP) c | None => [] end in
         let raw := match tgt with Some (t, _) => attr_d "value" t | None => [] end in
         let val := match tgt with Some (t, _) => word_value t | None => [] end in
         subs ++
@@ -316,7 +421,7 @@ Section Walker.
       let inj :=
         if existsb (fun p => is_pure_cmdsub (fst p)) (skipn (S nassign) ws)
         then (if injrisk c tokens then [Ask] else []) else [] in
-      combine (subst ++ inj ++ redirs kr c ++
+      combine (subst ++ env_asks nassign 0 words ++ name_scans c base words nassign 0 (map fst ws) ++ inj ++ redirs kr c ++
                match words with
                | [] => [Allow]
                | _ => if mem_str base TEST_COMMANDS && negb (rulematch c tokens) then [Allow] else [simple c words]
@@ -326,7 +431,7 @@ Section Walker.
       if K "command" then command c
       else if K "pipeline" then combine (map (fun p => r_node (snd p) c) (lbl "commands" kr))
       else if K "list" then
-        combine (sequence c (filter (fun p => negb (is_kind "operator" (fst p))) (lbl "parts" kr)))
+        combine (sequence (init_state c) (with_ops (lbl "parts" kr)))
       else if K "if" then
         let cb := body_ctx c (moves_of (one "condition" kr)) in
         combine (need_node (one "condition" kr) c :: need_node (one "then_body" kr) cb ::
@@ -335,12 +440,13 @@ Section Walker.
         let cb := body_ctx c (changes_directory self) in
         combine (need_node (one "condition" kr) cb :: need_node (one "body" kr) cb :: redirs kr c)
       else if K "for" || K "select" then
-        combine (need_node (one "body" kr) (body_ctx c (moves_of (one "body" kr))) :: wparts_of "words" kr c ++ redirs kr c)
+        combine (need_node (one "body" kr) (body_ctx c (moves_of (one "body" kr))) ::
+                 flat_map (fun p => r_wp (snd p) true c) (lbl "words" kr) ++ redirs kr c)
       else if K "for-arith" then
         combine (need_node (one "body" kr) (body_ctx c (moves_of (one "body" kr))) ::
                  rawscan c (sattr "init") ++ rawscan c (sattr "cond") ++ rawscan c (sattr "incr") ++ redirs kr c)
       else if K "case" then
-        combine (wparts_of "word" kr c ++ flat_map (fun p => r_pat (snd p) c) (lbl "patterns" kr) ++ redirs kr c)
+        combine (wparts_of "word" kr c ++ case_items c (lbl "patterns" kr) ++ redirs kr c)
       else if K "function" then need_node (one "body" kr) c
       else if K "subshell" || K "brace-group" then combine (need_node (one "body" kr) c :: redirs kr c)
       else if K "time" || K "negation" then need_node (one "pipeline" kr) c
@@ -368,6 +474,6 @@ Section Walker.
     match nodes with
     | None => Ask
     | Some [] => Ask
-    | Some ns => combine (sequence c (map (fun t => (t, ev t)) ns))
+    | Some ns => combine (sequence (init_state c) (semis (map (fun t => (t, ev t)) ns)))
     end.
 End Walker.
